@@ -183,6 +183,19 @@ def root_of(E, ptr, depth=0):
             return None, steps, off
         steps.append((H, ('chunks', full, n), {'': Fraction(n * esz)}))
         p = Ptr(('slice', coll), {}, p.elem)
+    # a pointer into a sub-slice of a parameter slice (`x[a..]`, `x[..b]`, `x.split_at(h).0 / .1`): the same pointer into x, a elements further
+    sv = subslice_view(p.base)
+    if sv is not None:
+        par, offs = sv
+        ty = LN.pointee(E.fn.local_ty(par[1])) or ''
+        esz = LN.sizeof(ty[1:-1].split(';')[0]) if ty.startswith('[') and ty.endswith(']') else None
+        if esz is None:
+            return None, steps, off
+        for o in offs:
+            for k, v in X.lin(o).items():
+                off[k] = off.get(k, 0) + v * esz
+        p = Ptr(('slice', par), {}, p.elem)
+        p.subslice_offs = list(offs)
     # index-derived row steps (`base.add(j * stride)`): same meaning as a pointer bumped by `stride` in every iteration of loop H
     for k in list(off):
         if isinstance(k, str) and k.startswith('it#') and '*' in k:
@@ -314,6 +327,106 @@ def bump_view(E):
             a.value = subv(a.value)
     E.local_mem = {k: [(o, subv(v)) for o, v in lst] for k, lst in E.local_mem.items()}
     return E
+
+
+def subslice_view(base):
+    """base = ('slice', e) with e a safe sub-slice of a parameter slice, built from range indexing and split_at: (('p', n), [start offsets in
+    elements]); None when e is not of that form (or is the parameter itself).  Every such sub-slice lies inside the parameter slice and the
+    expression that builds it panics unless its bounds are ordered and inside, so bounds need no separate check here."""
+    if not (isinstance(base, tuple) and len(base) == 2 and base[0] == 'slice'):
+        return None
+    e = norm(base[1])
+    offs = []
+    seen = False
+    for _ in range(6):
+        mm = m(('call~', ('slice::index::index', 'slice::index::index_mut', 'ops::index::Index::index', 'ops::index::IndexMut::index_mut'), ('$x', ('agg', '$adt', '$args'))), e)
+        if mm is not None and isinstance(mm['$adt'], tuple) and len(mm['$adt']) > 2 and str(mm['$adt'][1]).startswith('core::ops::range::'):
+            kind, args = mm['$adt'][2], mm['$args']
+            if kind in ('RangeFrom', 'Range') and args:
+                offs.append(args[0])
+            elif kind not in ('RangeTo', 'RangeFull'):
+                return None
+            e = norm(mm['$x'])
+            seen = True
+            continue
+        mm = m(('fld', ('call~', ('slice::split_at', 'slice::split_at_mut'), ('$x', '$h')), '$i'), e)
+        if mm is not None and str(mm['$i']) in ('0', '1'):
+            if str(mm['$i']) == '1':
+                offs.append(mm['$h'])
+            e = norm(mm['$x'])
+            seen = True
+            continue
+        break
+    if seen and e[0] == 'p':
+        return e, offs
+    return None
+
+
+def index_facts(e, out=None, seen=None):
+    """Linear facts (each `form >= 0`, atoms as X.lin spells them) that hold for the integer sub-expressions of an index expression:
+    x / d (d a positive literal): d*q <= x <= d*q + d - 1;  a.saturating_sub(b): 0 <= s, a - b <= s <= a;  the element e of
+    `(lo..hi).step_by(s)`: e = lo + s*k with k >= 0 and e <= hi - 1;  the element of `lo..hi`: lo <= e <= hi - 1."""
+    out = [] if out is None else out
+    seen = set() if seen is None else seen
+    if not isinstance(e, tuple) or not e:
+        return out
+    key = repr(e)
+    if key in seen:
+        return out
+    seen.add(key)
+
+    def atom(x):
+        l = X.lin(x)
+        return l
+
+    def sub(a, b):
+        o = dict(a)
+        for k, v in b.items():
+            o[k] = o.get(k, 0) - v
+        return {k: v for k, v in o.items() if v != 0}
+
+    def addc(a, c):
+        o = dict(a)
+        o[''] = o.get('', 0) + c
+        return o
+    en = norm(e)
+    if en[0] == 'bin' and en[1] == 'Div' and norm(en[3])[0] == 'k' and isinstance(norm(en[3])[1], int) and norm(en[3])[1] > 0:
+        d = norm(en[3])[1]
+        q, x = atom(en), X.lin(en[2])
+        dq = {k: v * d for k, v in q.items()}
+        out.append(sub(x, dq))                       # x - d*q >= 0
+        out.append(addc(sub(dq, x), d - 1))          # d*q + d - 1 - x >= 0
+        out.append(q)
+    if en[0] == 'call' and en[1].endswith('::saturating_sub') and len(en[2]) == 2:
+        sa, a_, b_ = atom(en), X.lin(en[2][0]), X.lin(en[2][1])
+        out.append(sa)
+        out.append(sub(sa, sub(a_, b_)))
+        if norm(en[2][1])[0] == 'k' or True:          # unsigned operands: s <= a
+            out.append(sub(a_, sa))
+    if en[0] == 'elem' and isinstance(en[1], tuple) and en[1] and en[1][0] == 'iter':
+        it = norm(en[1][1])
+        rng, step = None, 1
+        if it[0] == 'call' and it[1].endswith('Iterator::step_by') and len(it[2]) == 2 and norm(it[2][1])[0] == 'k' and isinstance(norm(it[2][1])[1], int) and norm(it[2][1])[1] > 0:
+            rng, step = norm(it[2][0]), norm(it[2][1])[1]
+        elif it[0] == 'agg':
+            rng = it
+        if rng is not None and rng[0] == 'agg' and isinstance(rng[1], tuple) and len(rng[1]) > 2 and rng[1][2] == 'Range' and len(rng[2]) == 2:
+            lo, hi = X.lin(rng[2][0]), X.lin(rng[2][1])
+            ea = atom(en)
+            out.append(addc(sub(hi, ea), -1))            # e <= hi - 1
+            if step == 1:
+                out.append(sub(ea, lo))
+            else:
+                kname = 'k#' + next(iter(ea))
+                ks = {kname: step}
+                eq = sub(sub(ea, lo), ks)                # e - lo - s*k = 0
+                out.append(eq)
+                out.append({k: -v for k, v in eq.items()})
+                out.append({kname: 1})
+    for x in en:
+        if isinstance(x, tuple):
+            index_facts(x, out, seen)
+    return out
 
 
 def chunk_source(coll):
